@@ -7,3 +7,20 @@ Import ListNotations.
 
 Definition drv_vote (bs : N) (copies : list (list byte)) : list byte * N :=
   let '(o, s) := vote_chunked byte_eqb (N.to_nat bs) copies in (o, N.of_nat s).
+
+(* ---- C20 ---- *)
+From PFF Require Import Diff.
+Fixpoint assoc (k : list byte) (l : list (list byte * list byte)) : option (list byte) :=
+  match l with
+  | [] => None
+  | (k', v) :: t => if list_eqb byte_eqb k k' then Some v else assoc k t
+  end.
+Definition NN (p : nat * nat) : N * N := (N.of_nat (fst p), N.of_nat (snd p)).
+Definition drv_diff (bs st1 st2 : N) (f1 f2 : list byte) : (N * N) * bool :=
+  (NN (diff_bytes byte_eqb (N.to_nat bs) (N.to_nat st1) (N.to_nat st2) f1 f2),
+   diff_same byte_eqb (N.to_nat bs) (N.to_nat st1) (N.to_nat st2) f1 f2).
+Definition drv_diffdir (bs : N) (rk rv ok ov : list (list byte)) : ((N * N) * (N * N)) * N :=
+  let ref := combine rk rv in
+  let other := fun p => assoc p (combine ok ov) in
+  ((NN (bytes_dir byte_eqb (N.to_nat bs) ref other), NN (count_dir byte_eqb (N.to_nat bs) ref other)),
+   N.of_nat (exit_status byte_eqb (N.to_nat bs) ref other)).
